@@ -26,7 +26,12 @@ type EntityStreamParser struct {
 	localNamespaces       map[string]string
 	localPropertyMappings map[string]string
 	processingContext     bool
+	depth                 int
 }
+
+// maxNestingDepth bounds nested entities / arrays inside a property value; the
+// recursive descent would otherwise overflow the stack (fatal) on hostile input.
+const maxNestingDepth = 1000
 
 // readNamespaces copies the "namespaces" object of a context into the local
 // prefix map; anything but string -> string is a parse error.
@@ -236,6 +241,11 @@ func (esp *EntityStreamParser) ParseStream(reader io.Reader, emitEntity func(*En
 }
 
 func (esp *EntityStreamParser) parseEntity(decoder *json.Decoder) (*Entity, error) {
+	esp.depth++
+	defer func() { esp.depth-- }()
+	if esp.depth > maxNestingDepth {
+		return nil, errors.New("entity nested too deeply")
+	}
 	e := &Entity{}
 	e.Properties = make(map[string]interface{})
 	e.References = make(map[string]interface{})
@@ -471,6 +481,11 @@ func (esp *EntityStreamParser) parseRefArray(decoder *json.Decoder) ([]string, e
 }
 
 func (esp *EntityStreamParser) parseArray(decoder *json.Decoder) ([]interface{}, error) {
+	esp.depth++
+	defer func() { esp.depth-- }()
+	if esp.depth > maxNestingDepth {
+		return nil, errors.New("array nested too deeply")
+	}
 	array := make([]interface{}, 0)
 	for {
 		t, err := decoder.Token()
